@@ -160,6 +160,76 @@ example : argsGet [[97], [98, 99]] (List.replicate 12 0xAA) 0 8 = .ub .outOfBoun
 
 theorem nsec_cast : (Gen.WasiPath.nsecPerSec : Int) = 1000000000 := rfl
 
+theorem scaledSum_ok (a b : Nat) (x y : Int) (hx : 0 ≤ x) (hy : 0 ≤ y)
+    (hfit : x * (a : Int) + y * (b : Int) ≤ 9223372036854775807) :
+    scaledSum a x b y = .val (x * (a : Int) + y * (b : Int)) := by
+  unfold scaledSum
+  have h1 : 0 ≤ x * (a : Int) := Int.mul_nonneg hx (Int.natCast_nonneg a)
+  have h2 : 0 ≤ y * (b : Int) := Int.mul_nonneg hy (Int.natCast_nonneg b)
+  have c1 : ¬ (x * (a : Int) < -9223372036854775808 ∨ 9223372036854775807 < x * (a : Int)) := by omega
+  have c2 : ¬ (y * (b : Int) < -9223372036854775808 ∨ 9223372036854775807 < y * (b : Int)) := by omega
+  have c3 : ¬ (x * (a : Int) + y * (b : Int) < -9223372036854775808 ∨ 9223372036854775807 < x * (a : Int) + y * (b : Int)) := by omega
+  simp only [c1, c2, c3, if_false]
+
+theorem scaledSum_val (a b : Nat) (x y r : Int) (h : scaledSum a x b y = .val r) : r = x * (a : Int) + y * (b : Int) := by
+  unfold scaledSum at h
+  by_cases c1 : x * (a : Int) < -9223372036854775808 ∨ 9223372036854775807 < x * (a : Int)
+  · simp [c1] at h
+  by_cases c2 : y * (b : Int) < -9223372036854775808 ∨ 9223372036854775807 < y * (b : Int)
+  · simp [c1, c2] at h
+  by_cases c3 : x * (a : Int) + y * (b : Int) < -9223372036854775808 ∨ 9223372036854775807 < x * (a : Int) + y * (b : Int)
+  · simp [c1, c2, c3] at h
+  simp only [c1, c2, c3, if_false, Out.val.injEq] at h
+  exact h.symm
+
+/-- **convert_scaled_to_ns.**  Both conversions are seconds·10⁹ plus the sub-second part scaled to nanoseconds
+    (`tv_nsec`·1, `tv_usec`·1000), as regenerated from convertTimespec / convertTimeval. -/
+theorem convert_scaled_to_ns :
+    Gen.WasiPath.timespecSecScale = 1000000000 ∧ Gen.WasiPath.timespecNsecScale = 1 ∧
+    Gen.WasiPath.timevalSecScale = 1000000000 ∧ Gen.WasiPath.timevalUsecScale = 1000 ∧
+    (∀ sec nsec r, convertTimespec sec nsec = .val r → r = sec * 1000000000 + nsec) ∧
+    (∀ sec usec r, convertTimeval sec usec = .val r → r = sec * 1000000000 + usec * 1000) := by
+  refine ⟨rfl, rfl, rfl, rfl, ?_, ?_⟩
+  · intro sec nsec r h
+    have := scaledSum_val _ _ _ _ _ h
+    simpa [Gen.WasiPath.timespecSecScale, Gen.WasiPath.timespecNsecScale] using this
+  · intro sec usec r h
+    have := scaledSum_val _ _ _ _ _ h
+    simpa [Gen.WasiPath.timevalSecScale, Gen.WasiPath.timevalUsecScale] using this
+
+/-- **clock_fallback_ns.**  A library built without POSIX timers (-DWASI_FALLBACK_TIMERS_ENABLED=1): realtime
+    (id 0, `gettimeofday`) and process CPU time (id 2, `getrusage`) report `sec·10⁹ + usec·1000`; every other
+    id EINVAL. -/
+theorem clock_fallback_ns (host : HostClock) (id : Nat) (mem : Mem) (ptr : Nat) (hp : ptr + 8 ≤ mem.length) :
+    Gen.WasiPath.fallbackClockTable = [(0, "gettimeofday"), (2, "getrusage")] ∧
+    (∀ call sec usec, Gen.WasiPath.fallbackClockTable.find? (fun r => r.1 == id) = some (id, call) →
+      host call = .inr (sec, usec) → 0 ≤ sec → 0 ≤ usec → sec * 1000000000 + usec * 1000 ≤ 9223372036854775807 →
+      clockTimeGetFallback host id mem ptr = .val (0, put mem ptr (leBytes 8 (sec * 1000000000 + usec * 1000).toNat))) ∧
+    (id ≠ 0 → id ≠ 2 → clockTimeGetFallback host id mem ptr = .val (28, mem)) := by
+  refine ⟨rfl, ?_, ?_⟩
+  · intro call sec usec hfind hh h0 hu hfit
+    unfold clockTimeGetFallback
+    rw [hfind]
+    simp only [hh, convertTimeval]
+    rw [scaledSum_ok _ _ _ _ h0 hu (by simpa [Gen.WasiPath.timevalSecScale, Gen.WasiPath.timevalUsecScale] using hfit)]
+    simp only [Out.bind_val, i64Store, Gen.WasiPath.timevalSecScale, Gen.WasiPath.timevalUsecScale]
+    have hbits : i64Bits (sec * ((1000000000 : Nat) : Int) + usec * ((1000 : Nat) : Int)) = (sec * 1000000000 + usec * 1000).toNat := by
+      unfold i64Bits
+      have e1 : ((1000000000 : Nat) : Int) = 1000000000 := rfl
+      have e2 : ((1000 : Nat) : Int) = 1000 := rfl
+      rw [e1, e2, Int.emod_eq_of_lt (by omega) (by omega)]
+    rw [hbits, storeBytes_put mem ptr _ (by simp [leBytes_length]; omega)]
+    rfl
+  · intro h0 h2
+    unfold clockTimeGetFallback
+    have : Gen.WasiPath.fallbackClockTable.find? (fun r => r.1 == id) = none := by
+      simp only [Gen.WasiPath.fallbackClockTable, List.find?_cons, List.find?_nil]
+      have n0 : (0 == id) = false := by simp; omega
+      have n2 : (2 == id) = false := by simp; omega
+      simp [n0, n2]
+    rw [this]
+    rfl
+
 /-- **clock_id_ignores_precision.**  The host clock that `clock_time_get` reads is a function of the WASI
     clock id ONLY: the regenerated scan of the whole function body finds no branch on `precision` (or any
     other use of it).  A "use a cheaper clock for coarse precision" edit regenerates a non-trivial
@@ -196,16 +266,14 @@ theorem clock_ns (host : HostClock) (id precision : Nat) (mem : Mem) (ptr : Nat)
   · intro name sec nsec hfind hh h0 hn0 hn1 hfit
     unfold clockTimeGet
     rw [(clock_id_ignores_precision id precision 0).2.2, hfind]
-    simp only [Option.map_some, hh, convertTimespec, nsec_cast]
-    have hprod : 0 ≤ sec * 1000000000 := Int.mul_nonneg h0 (by decide)
-    have c1 : ¬ (sec * 1000000000 < -9223372036854775808 ∨ 9223372036854775807 < sec * 1000000000) := by
-      omega
-    have c2 : ¬ (sec * 1000000000 + nsec < -9223372036854775808 ∨ 9223372036854775807 < sec * 1000000000 + nsec) := by
-      omega
-    simp only [c1, c2, if_false, Out.bind_val, i64Store]
-    have hbits : i64Bits (sec * 1000000000 + nsec) = (sec * 1000000000 + nsec).toNat := by
+    simp only [Option.map_some, hh, convertTimespec]
+    rw [scaledSum_ok _ _ _ _ h0 hn0 (by simpa [Gen.WasiPath.timespecSecScale, Gen.WasiPath.timespecNsecScale] using hfit)]
+    simp only [Out.bind_val, i64Store, Gen.WasiPath.timespecSecScale, Gen.WasiPath.timespecNsecScale]
+    have hbits : i64Bits (sec * ((1000000000 : Nat) : Int) + nsec * ((1 : Nat) : Int)) = (sec * 1000000000 + nsec).toNat := by
       unfold i64Bits
-      rw [Int.emod_eq_of_lt (by omega) (by omega)]
+      have e1 : ((1000000000 : Nat) : Int) = 1000000000 := rfl
+      have e2 : ((1 : Nat) : Int) = 1 := rfl
+      rw [e1, e2, Int.mul_one, Int.emod_eq_of_lt (by omega) (by omega)]
     rw [hbits, storeBytes_put mem ptr _ (by simp [leBytes_length]; omega)]
     rfl
   · intro name e hfind hh
@@ -238,18 +306,8 @@ theorem clock_monotonic_partial (s1 n1 s2 n2 : Int) (r1 r2 : Int)
     (h1 : convertTimespec s1 n1 = .val r1) (h2 : convertTimespec s2 n2 = .val r2)
     (hn1 : 0 ≤ n1 ∧ n1 < 1000000000) (hn2 : 0 ≤ n2 ∧ n2 < 1000000000)
     (hle : s1 < s2 ∨ (s1 = s2 ∧ n1 ≤ n2)) : r1 ≤ r2 := by
-  unfold convertTimespec at h1 h2
-  simp only [nsec_cast] at h1 h2
-  by_cases a1 : s1 * 1000000000 < -9223372036854775808 ∨ 9223372036854775807 < s1 * 1000000000
-  · simp [a1] at h1
-  by_cases b1 : s1 * 1000000000 + n1 < -9223372036854775808 ∨ 9223372036854775807 < s1 * 1000000000 + n1
-  · simp [a1, b1] at h1
-  by_cases a2 : s2 * 1000000000 < -9223372036854775808 ∨ 9223372036854775807 < s2 * 1000000000
-  · simp [a2] at h2
-  by_cases b2 : s2 * 1000000000 + n2 < -9223372036854775808 ∨ 9223372036854775807 < s2 * 1000000000 + n2
-  · simp [a2, b2] at h2
-  simp only [a1, b1, if_false, Out.val.injEq] at h1
-  simp only [a2, b2, if_false, Out.val.injEq] at h2
+  have e1 := (convert_scaled_to_ns).2.2.2.2.1 s1 n1 r1 h1
+  have e2 := (convert_scaled_to_ns).2.2.2.2.1 s2 n2 r2 h2
   rcases hle with h | ⟨h, h'⟩
   · omega
   · subst h; omega
@@ -284,6 +342,8 @@ theorem clock_history_monotone_partial (host1 host2 : HostClock) (id p1 p2 : Nat
 
 /-- beyond the representable range the conversion is a signed overflow (model fact; year 2262) -/
 example : convertTimespec 9223372037 0 = .ub .signedOverflow := by decide
+/-- the fallback conversion scales the microseconds -/
+example : convertTimeval 5 7 = .val 5000007000 := by decide
 
 /-! ### random_get -/
 
